@@ -57,6 +57,12 @@ NOT_YET.update({
 # units added after the first version of the texts above (rounds 5 and 6 of strengthening)
 EXTRA = {
     "C01": " Also: a.or_not() driven through its IterParser interface for every K01 grammar a (alone and chained); one_of / none_of / just over every Seq / OrderedSeq container flavour (single token, &T, &[T], [T; N], &[T; N], Vec, LinkedList, HashSet, BTreeSet, &str, String, Range, RangeInclusive, RangeFrom) for all subsets / sequences / ranges over five letters, char and u8.",
+    "C02": " Also: collect() into every Container flavour (Vec, VecDeque, LinkedList, String, HashSet, BTreeSet, maps, Box / Cell / RefCell of a container, usize, ()) against the Vec item sequence; or_not and iterable chains as item sources.",
+    "C06": " Also: the context class (just(..).configure(seq), configured repetitions) with Rich errors; the failure of a nested parse merged by the furthest-wins rule.",
+    "C07": " Also: K07 on IoInput and BoxedStream; the cursor machine on 13 input kinds; Pratt fold-callback spans.",
+    "C09": " Also: the same tables with binding powers spread over the whole u16 range (order-isomorphic relabelling), and tables whose operator symbols share a prefix (+ / ++).",
+    "C12": " Also: the recursion handle wrapped (boxed(), Rc, Box, declared and boxed, mutually through boxed handles) inside its own definition: same language, and no overflow at the depth points.",
+    "C19": " Also: long runs (inputs up to 11/13 tokens) through every sink, tracked and zero-sized values; every ContainerExactly flavour.",
     "C03": " Also: IoInput over readers answering with short reads / Interrupted (15 schedules per case); nested inputs (nested_in must consume its whole nested input unless its parser is lazy()).",
     "C04": " Also: delimited_by and emitters in the deep elision class; text parsers and regex() in every eliding formulation.",
     "C05": " Also: the same emission counts with EmptyErr and Cheap; emissions surfacing from nested inputs.",
@@ -125,7 +131,7 @@ def main():
         "engines": engines,
         "checks": checks,
         "not_applicable": na,
-        "notes": "Checks rebuild the harness (path dependency on /repo) before every run. known_findings.json lists 13 fixed: entries (fix: commits in /repo) and one known: entry (C20, one_of over an unbounded range with Rich errors); see DESIGN.md section 6.",
+        "notes": "Checks rebuild the harness (path dependency on /repo) before every run. known_findings.json lists 14 fixed: entries (fix: commits in /repo) and one known: entry (C20, one_of over an unbounded range with Rich errors); see DESIGN.md section 6.",
     }
     json.dump(m, open(os.path.join(ROOT, "MANIFEST.json"), "w"), indent=1)
     print("MANIFEST.json:", len(checks), "checks,", len(na), "not claimed")
